@@ -968,52 +968,6 @@ Proof.
         exact (absent_notin hash t key Wt S Hin).
 Qed.
 
-(* ---- chain invariant (head constructed with a bucket count: no placeholder) ---- *)
-Definition tables (c : chain) : list table := head c :: rest c.
-Definition celems (c : chain) : list elem := flat_map titer (tables c).
-
-Record CInv (c : chain) : Prop := {
-  ci_wf : Forall WF (tables c);
-  ci_ok : chain_ok (tables c);
-  ci_nd : NoDup (map fst (celems c))
-}.
-
-Definition Ref (c : chain) (l : list elem) : Prop := CInv c /\ Permutation (celems c) l.
-
-Lemma ref_nodup c l : Ref c l -> NoDup (map fst l).
-Proof. intros [H P]. apply (Permutation_NoDup (Permutation_map fst P)). apply (ci_nd _ H). Qed.
-
-Definition is_ins (r : eres) : bool := match r with EInserted _ => true | _ => false end.
-Definition is_stuck (r : eres) : bool := match r with EStuck => true | _ => false end.
-
-Lemma cemplace_spec c e l : Ref c l ->
-  match cemplace hash c e with
-  | (c', r, v) =>
-    match rfind l (fst e) with
-    | Some x => c' = c /\ is_ins r = false /\ is_stuck r = false /\ v = Some x
-    | None => Ref c' (l ++ [e]) /\ is_ins r = true /\ is_stuck r = false /\ v = Some e
-    end
-  end.
-Proof.
-  intros [H P]. unfold cemplace. pose proof (emplace_tables_spec (tables c) 0 e (ci_wf _ H) (ci_ok _ H)) as S.
-  fold (tables c). destruct (emplace_tables hash (tables c) 0 e) as [[ts' r] v].
-  destruct S as (W & Ok & Ne & D). destruct ts' as [|t' rs']; [congruence|].
-  destruct D as [(Hin & E & (i & ->) & x & -> & Hx & Hk)|(Hnin & (i & ->) & -> & P2)].
-  - assert (Hf : rfind l (fst e) = Some x).
-    { rewrite <- Hk. apply rfind_in; [eapply ref_nodup; split; eauto|]. apply (Permutation_in _ P). auto. }
-    rewrite Hf. simpl. repeat split; auto. destruct c; unfold tables in E; simpl in *. congruence.
-  - assert (Hf : rfind l (fst e) = None).
-    { apply rfind_none. intros Hin. apply Hnin. unfold keys.
-      apply (Permutation_in _ (Permutation_map fst (Permutation_sym P))). auto. }
-    rewrite Hf. simpl. split; [|auto].
-    assert (PP : Permutation (celems (mkC t' rs')) (l ++ [e])).
-    { unfold celems, tables. simpl head. simpl rest. rewrite P2. rewrite Permutation_app_comm. simpl.
-      constructor. exact P. }
-    split; auto. constructor; auto.
-    unfold celems, tables. simpl head. simpl rest.
-    apply (Permutation_NoDup (Permutation_map fst (Permutation_sym P2))). simpl. constructor; auto.
-    apply (ci_nd _ H).
-Qed.
 End Chain.
 
 
@@ -1033,13 +987,135 @@ Definition out_ok (o : out) (r : rout) : Prop :=
 Definition refines (hash : Z -> Z) (a b : option Z) (ops : list op) : Prop :=
   Forall2 out_ok (snd (run hash (init a b) ops)) (snd (rrun ([], []) ops)).
 
+Lemma skipn_nth_cons {A} (l : list A) k x : nth_error l k = Some x -> skipn k l = x :: skipn (S k) l.
+Proof.
+  revert k. induction l as [|a l IH]; intros [|k] H; simpl in *; try discriminate.
+  - injection H as ->. reflexivity.
+  - apply IH. exact H.
+Qed.
+
 Section Chain2.
 Variable hash : Z -> Z.
 Notation WF := (WF hash).
-Notation CInv := (CInv hash).
-Notation Ref := (Ref hash).
-Notation chain_ok := (chain_ok).
 
+(* ---- chain invariant; the head may be the placeholder of a default-constructed container ---- *)
+Definition TOK (t : table) : Prop := WF t \/ t = dummy_table.
+
+Definition tables (c : chain) : list table := head c :: rest c.
+Definition celems (c : chain) : list elem := flat_map titer (tables c).
+(* the allocated tables *)
+Definition wtabs (c : chain) : list table := if dummy (head c) then rest c else tables c.
+
+Record CInv (c : chain) : Prop := {
+  ci_head : TOK (head c);
+  ci_wf : Forall WF (wtabs c);
+  ci_ok : chain_ok (wtabs c);
+  ci_nd : NoDup (map fst (celems c))
+}.
+
+Definition Ref (c : chain) (l : list elem) : Prop := CInv c /\ Permutation (celems c) l.
+
+Lemma tok_cases t : TOK t -> (WF t /\ dummy t = false) \/ (t = dummy_table /\ dummy t = true).
+Proof. intros [W| ->]; [left; split; auto; apply (wf_nd _ _ W)|right; auto]. Qed.
+
+Lemma celems_wtabs c : TOK (head c) -> celems c = flat_map titer (wtabs c).
+Proof.
+  intros H. unfold celems, wtabs, tables. destruct (tok_cases _ H) as [[_ E]|[E1 E]]; rewrite E; auto.
+  rewrite E1. reflexivity.
+Qed.
+
+Lemma rest_wf c : CInv c -> Forall WF (rest c) /\ chain_ok (rest c).
+Proof.
+  intros H. pose proof (ci_wf _ H) as W. pose proof (ci_ok _ H) as O. unfold wtabs, tables in *.
+  destruct (dummy (head c)); auto. inversion W; subst. destruct O. auto.
+Qed.
+
+Lemma cnt_head c : CInv c -> cnt (head c) = Z.of_nat (length (titer (head c))).
+Proof.
+  intros H. destruct (tok_cases _ (ci_head _ H)) as [[W _]|[E _]]; [apply (wf_cnt _ _ W)|rewrite E; reflexivity].
+Qed.
+
+Lemma ref_nodup c l : Ref c l -> NoDup (map fst l).
+Proof. intros [H P]. apply (Permutation_NoDup (Permutation_map fst P)). apply (ci_nd _ H). Qed.
+
+Definition is_ins (r : eres) : bool := match r with EInserted _ => true | _ => false end.
+Definition is_stuck (r : eres) : bool := match r with EStuck => true | _ => false end.
+
+(* emplace on the chain = emplace on the allocated tables (the placeholder always answers "full") *)
+Lemma cemplace_wtabs c e : CInv c ->
+  exists prev, match emplace_tables hash (wtabs c) prev e with
+  | (ts', r, v) => exists c', cemplace hash c e = (c', r, v) /\ head c' = (if dummy (head c) then head c else hd (head c) ts') /\
+                   (ts' <> [] -> wtabs c' = ts' /\ TOK (head c') /\ celems c' = flat_map titer ts')
+  end.
+Proof.
+  intros H. unfold cemplace, wtabs. destruct (tok_cases _ (ci_head _ H)) as [[W E]|[E1 E]]; rewrite E.
+  - exists 0. fold (tables c). pose proof (emplace_tables_spec hash (tables c) 0 e) as S.
+    pose proof (ci_wf _ H) as HW. pose proof (ci_ok _ H) as HO. unfold wtabs in HW, HO. rewrite E in HW, HO.
+    specialize (S HW HO). destruct (emplace_tables hash (tables c) 0 e) as [[ts' r] v].
+    destruct S as (W' & _ & Ne & _). destruct ts' as [|t' rs']; [congruence|].
+    exists (mkC t' rs'). split; auto. split; auto. intros _. inversion W' as [|? ? Wt' _]; subst.
+    unfold wtabs, tables, celems. simpl. rewrite (wf_nd _ _ Wt'). repeat split; auto. left; auto.
+  - exists (bcount dummy_table). unfold tables. rewrite E1. cbn [emplace_tables]. rewrite dummy_templace.
+    destruct (emplace_tables hash (rest c) (bcount dummy_table) e) as [[ts' r] v].
+    exists (mkC dummy_table ts'). split; auto. split; auto. intros _.
+    unfold wtabs, tables, celems. simpl. repeat split; auto. right; auto.
+Qed.
+
+Lemma cemplace_spec c e l : Ref c l ->
+  match cemplace hash c e with
+  | (c', r, v) =>
+    match rfind l (fst e) with
+    | Some x => c' = c /\ is_ins r = false /\ is_stuck r = false /\ v = Some x
+    | None => Ref c' (l ++ [e]) /\ is_ins r = true /\ is_stuck r = false /\ v = Some e
+    end
+  end.
+Proof.
+  intros [H P]. destruct (cemplace_wtabs c e H) as (prev & S0).
+  pose proof (emplace_tables_spec hash (wtabs c) prev e (ci_wf _ H) (ci_ok _ H)) as S.
+  destruct (emplace_tables hash (wtabs c) prev e) as [[ts' r] v].
+  destruct S0 as (c' & -> & Hh & Hc'). destruct S as (W & Ok & Ne & D). destruct (Hc' Ne) as (Ew & Tk & Ec).
+  rewrite (celems_wtabs c (ci_head _ H)) in P.
+  destruct D as [(Hin & E & (i & ->) & x & -> & Hx & Hk)|(Hnin & (i & ->) & -> & P2)].
+  - assert (Hf : rfind l (fst e) = Some x).
+    { rewrite <- Hk. apply rfind_in; [eapply ref_nodup; split; eauto; rewrite celems_wtabs; auto; apply (ci_head _ H)|].
+      apply (Permutation_in _ P). auto. }
+    rewrite Hf. simpl. repeat split; auto. subst ts'.
+    destruct c as [hc rc], c' as [hc' rc']. unfold wtabs, tables in *. simpl in *.
+    destruct (dummy hc) eqn:Dh.
+    + subst hc'. rewrite Dh in Ew. subst. reflexivity.
+    + destruct (dummy hc') eqn:Dh'.
+      * simpl in Hh. subst hc'. congruence.
+      * congruence.
+  - assert (Hf : rfind l (fst e) = None).
+    { apply rfind_none. intros Hin. apply Hnin. unfold keys.
+      apply (Permutation_in _ (Permutation_map fst (Permutation_sym P))). auto. }
+    rewrite Hf. simpl. split; [|auto].
+    assert (PP : Permutation (celems c') (l ++ [e])).
+    { rewrite Ec, P2. rewrite Permutation_app_comm. simpl. constructor. exact P. }
+    split; auto. constructor; auto.
+    + rewrite Ew. auto.
+    + rewrite Ew. auto.
+    + rewrite Ec. apply (Permutation_NoDup (Permutation_map fst (Permutation_sym P2))). simpl. constructor; auto.
+      pose proof (ci_nd _ H) as ND. rewrite (celems_wtabs c (ci_head _ H)) in ND. exact ND.
+Qed.
+
+Lemma cfind_spec c l k : Ref c l -> cfind hash c k = rfind l k.
+Proof.
+  intros [H P]. rewrite (celems_wtabs c (ci_head _ H)) in P.
+  assert (E : cfind hash c k = find_tables hash (wtabs c) k).
+  { unfold cfind, wtabs. fold (tables c). destruct (tok_cases _ (ci_head _ H)) as [[_ E]|[E1 E]]; rewrite E; auto.
+    unfold tables. rewrite E1. cbn [find_tables]. rewrite dummy_tfind. reflexivity. }
+  rewrite E. pose proof (find_tables_spec hash (wtabs c) k (ci_wf _ H)) as S.
+  pose proof (ci_nd _ H) as ND. rewrite (celems_wtabs c (ci_head _ H)) in ND.
+  destruct (find_tables hash (wtabs c) k) as [x|].
+  - destruct S as [Hin <-]. symmetry. apply rfind_in.
+    + apply (Permutation_NoDup (Permutation_map fst P)). exact ND.
+    + apply (Permutation_in _ P). auto.
+  - symmetry. apply rfind_none. intros Hin. apply S. unfold keys.
+    apply (Permutation_in _ (Permutation_map fst (Permutation_sym P))). auto.
+Qed.
+
+(* ---- size ---- *)
 Lemma total_size_loop_spec ts : forall sum, Forall WF ts -> chain_ok ts -> ts <> [] ->
   total_size_loop ts sum = sum + Z.of_nat (length (flat_map titer ts)).
 Proof.
@@ -1052,38 +1128,63 @@ Proof.
     rewrite app_length. lia.
 Qed.
 
-Lemma total_size_init_full b : total_size_init b b = b.
+(* total_size starts from the head's own element count *)
+Lemma total_size_init_eq b s : total_size_init b s = s.
 Proof. reflexivity. Qed.
 
 Lemma csize_spec c : CInv c -> csize c = Z.of_nat (length (celems c)).
 Proof.
-  intros H. pose proof (ci_wf _ _ H) as HW. pose proof (ci_ok _ _ H) as Hok. unfold tables in *.
-  inversion HW as [|? ? Wt Wrs]; subst. destruct Hok as [Hfull Hok].
+  intros H. destruct (rest_wf c H) as [Wr Or]. pose proof (cnt_head c H) as Ch.
   unfold csize, celems, tables. destruct (rest c) as [|t2 rs] eqn:R.
-  - simpl. rewrite app_nil_r. apply (wf_cnt _ _ Wt).
-  - rewrite total_size_loop_spec; auto; [|discriminate].
-    rewrite <- Hfull by discriminate. rewrite total_size_init_full. rewrite (wf_cnt _ _ Wt).
+  - simpl. rewrite app_nil_r. exact Ch.
+  - rewrite total_size_loop_spec; auto; [|discriminate]. rewrite total_size_init_eq, Ch.
     change (flat_map titer (head c :: t2 :: rs)) with (titer (head c) ++ flat_map titer (t2 :: rs)).
     rewrite app_length. lia.
 Qed.
 
-Lemma citer_spec c : CInv c -> citer c = Some (celems c).
+(* ---- iteration ---- *)
+(* begin() hands the successor of the table it stops in to the iterator, and walks node by node *)
+Lemma begin_next_eq hn nn : begin_chained_next hn nn = nn /\ begin_loop_next hn nn = nn.
+Proof. unfold begin_chained_next, begin_loop_next. lia. Qed.
+
+Lemma begin_loop_spec c : forall fuel k,
+  (length (rest c) - k < fuel)%nat -> (k < length (rest c))%nat ->
+  begin_loop fuel c (Z.of_nat k + 1) = Some (flat_map titer (skipn k (rest c))).
 Proof.
-  intros H. pose proof (ci_wf _ _ H) as HW. pose proof (ci_ok _ _ H) as Hok. unfold tables in *.
-  inversion HW as [|? ? Wt Wrs]; subst. destruct Hok as [Hfull Hok].
-  unfold citer, celems, tables, head_next. destruct (titer (head c)) as [|x l] eqn:T.
-  - assert (R : rest c = []).
-    { destruct (rest c); auto. exfalso. assert (E : cnt (head c) = bcount (head c)) by (apply Hfull; discriminate).
-      rewrite (wf_cnt _ _ Wt), T in E. pose proof (wf_ge _ _ Wt). simpl in E. lia. }
-    rewrite R. simpl. rewrite T. reflexivity.
-  - simpl flat_map. rewrite T. f_equal. f_equal. unfold walk. destruct (rest c); reflexivity.
+  induction fuel as [|f IH]; intros k Hf Hk; [lia|]. cbn [begin_loop].
+  destruct (Z.of_nat k + 1 <=? 0) eqn:E0; [lia|].
+  replace (Z.to_nat (Z.of_nat k + 1 - 1)) with k by lia.
+  destruct (nth_error (rest c) k) as [t|] eqn:N; [|apply nth_error_None in N; lia].
+  rewrite (skipn_nth_cons _ _ _ N). cbn [flat_map].
+  destruct (begin_next_eq (head_next c) (node_next c (Z.of_nat k + 1))) as [-> ->].
+  assert (Hw : walk c (node_next c (Z.of_nat k + 1)) = flat_map titer (skipn (S k) (rest c))).
+  { unfold node_next, walk. destruct (Z.of_nat k + 1 <? Z.of_nat (length (rest c))) eqn:E.
+    - destruct (Z.of_nat k + 1 + 1 <=? 0) eqn:E1; [lia|]. f_equal. f_equal. lia.
+    - apply Z.ltb_ge in E. rewrite (@skipn_all2 _ (S k) (rest c)) by lia. reflexivity. }
+  destruct (titer t) as [|x l] eqn:T.
+  - cbn [app]. unfold node_next in *. destruct (Z.of_nat k + 1 <? Z.of_nat (length (rest c))) eqn:E.
+    + apply Z.ltb_lt in E. replace (Z.of_nat k + 1 + 1) with (Z.of_nat (S k) + 1) by lia. apply IH; lia.
+    + apply Z.ltb_ge in E. rewrite (@skipn_all2 _ (S k) (rest c)) by lia. destruct f; [lia|]. reflexivity.
+  - rewrite Hw. reflexivity.
 Qed.
 
+Lemma citer_spec c : CInv c -> citer c = Some (celems c).
+Proof.
+  intros H. unfold citer, celems, tables. cbn [flat_map].
+  destruct (titer (head c)) as [|x l] eqn:T.
+  - cbn [app]. unfold head_next. destruct (rest c) as [|t rs] eqn:R.
+    + reflexivity.
+    + rewrite <- R. apply (begin_loop_spec c (S (length (rest c))) O); [lia|rewrite R; simpl; lia].
+  - f_equal. f_equal. unfold walk, head_next. destruct (rest c); reflexivity.
+Qed.
+
+(* ---- single-table chains, clear, rebuilds ---- *)
 Lemma single_cinv t : WF t -> CInv (mkC t []).
 Proof.
-  intros W. constructor; unfold celems, tables; simpl.
+  intros W. constructor; unfold celems, wtabs, tables; simpl; rewrite ?(wf_nd _ _ W).
+  - left; auto.
   - constructor; auto.
-  - split; auto. congruence.
+  - split; [intros X; exfalso; apply X; reflexivity|exact I].
   - rewrite app_nil_r. apply (wf_nodup _ _ W).
 Qed.
 
@@ -1097,11 +1198,32 @@ Proof.
   destruct (fresh_wf hash m) as (W & T & _). apply single_ref; auto. rewrite T. constructor.
 Qed.
 
+Lemma dummy_ref : Ref (mkC dummy_table []) [].
+Proof.
+  split; [|constructor]. constructor; unfold celems, wtabs, tables; simpl.
+  - right; auto.
+  - constructor.
+  - exact I.
+  - constructor.
+Qed.
+
+Lemma new_chain_ref a : Ref (new_chain a) [].
+Proof. destruct a; [apply fresh_ref|apply dummy_ref]. Qed.
+
+Lemma head_single c l : Ref c l -> rest c = [] -> Permutation (titer (head c)) l.
+Proof. intros [_ P] R. unfold celems, tables in P. rewrite R in P. simpl in P. rewrite app_nil_r in P. auto. Qed.
+
+Lemma construct_dummy_ref m l : Permutation (titer dummy_table) l -> Ref (mkC (construct dummy_table m) []) l.
+Proof.
+  intros P. apply single_ref; [apply construct_wf; reflexivity|]. rewrite construct_titer. exact P.
+Qed.
+
 Lemma cclear_spec c : CInv c -> Ref (cclear c) [].
 Proof.
   intros H. unfold cclear. destruct (rest c) eqn:R.
-  - pose proof (ci_wf _ _ H) as HW. unfold tables in HW. inversion HW as [|? ? Wt _]; subst.
-    destruct (tclear_spec hash _ Wt) as (W & T & _). apply single_ref; auto. rewrite T. constructor.
+  - destruct (tok_cases _ (ci_head _ H)) as [[W _]|[E _]].
+    + destruct (tclear_spec hash _ W) as (W' & T & _). apply single_ref; auto. rewrite T. constructor.
+    + rewrite E. unfold tclear. simpl dummy. cbv iota. apply construct_dummy_ref. constructor.
   - apply fresh_ref.
 Qed.
 
@@ -1109,7 +1231,7 @@ Lemma cfill_spec l : forall c l0, Ref c l0 -> Ref (cfill hash c l) (fold_left ri
 Proof.
   induction l as [|e l IH]; intros c l0 R; simpl; auto.
   unfold cfill. simpl fold_left. fold (cfill hash (fst (fst (cemplace hash c e))) l).
-  apply IH. pose proof (cemplace_spec hash c e l0 R) as S.
+  apply IH. pose proof (cemplace_spec c e l0 R) as S.
   destruct (cemplace hash c e) as [[c' r] v]. simpl fst. unfold rins.
   destruct (rfind l0 (fst e)).
   - destruct S as (-> & _). auto.
@@ -1119,26 +1241,26 @@ Qed.
 Lemma rebuild_ref c l m : Ref c l -> Ref (cfill hash (mkC (fresh m) []) (celems c)) l.
 Proof.
   intros [H P]. pose proof (cfill_spec (celems c) _ _ (fresh_ref m)) as R.
-  rewrite fold_rins_nodup in R by (simpl; apply (ci_nd _ _ H)). simpl in R.
+  rewrite fold_rins_nodup in R by (simpl; apply (ci_nd _ H)). simpl in R.
   destruct R as [H' P']. split; auto. rewrite P'. auto.
 Qed.
 
 Lemma crehash_spec c l n : Ref c l -> Ref (crehash hash c n) l.
 Proof.
-  intros [H P]. unfold crehash. destruct (rest c) eqn:R.
-  - pose proof (ci_wf _ _ H) as HW. unfold tables in HW. inversion HW as [|? ? Wt _]; subst.
-    destruct (trehash_spec hash _ n Wt) as (W & T). apply single_ref; auto. rewrite T.
-    unfold celems, tables in P. rewrite R in P. simpl in P. rewrite app_nil_r in P. auto.
-  - rewrite citer_spec by auto. apply rebuild_ref. split; auto.
+  intros R0. pose proof R0 as [H P]. unfold crehash. destruct (rest c) eqn:R.
+  - pose proof (head_single c l R0 R) as Ph. destruct (tok_cases _ (ci_head _ H)) as [[W _]|[E _]].
+    + destruct (trehash_spec hash _ n W) as (W' & T). apply single_ref; auto. rewrite T. auto.
+    + rewrite E in *. unfold trehash. simpl dummy. cbv iota. apply construct_dummy_ref. auto.
+  - rewrite citer_spec by auto. apply rebuild_ref. auto.
 Qed.
 
 Lemma creserve_spec c l n : Ref c l -> Ref (creserve hash c n) l.
 Proof.
-  intros [H P]. unfold creserve. destruct (rest c) eqn:R.
-  - pose proof (ci_wf _ _ H) as HW. unfold tables in HW. inversion HW as [|? ? Wt _]; subst.
-    destruct (treserve_spec hash _ n Wt) as (W & T). apply single_ref; auto. rewrite T.
-    unfold celems, tables in P. rewrite R in P. simpl in P. rewrite app_nil_r in P. auto.
-  - rewrite citer_spec by auto. apply rebuild_ref. split; auto.
+  intros R0. pose proof R0 as [H P]. unfold creserve. destruct (rest c) eqn:R.
+  - pose proof (head_single c l R0 R) as Ph. destruct (tok_cases _ (ci_head _ H)) as [[W _]|[E _]].
+    + destruct (treserve_spec hash _ n W) as (W' & T). apply single_ref; auto. rewrite T. auto.
+    + rewrite E in *. unfold treserve. simpl dummy. cbv iota. apply construct_dummy_ref. auto.
+  - rewrite citer_spec by auto. apply rebuild_ref. auto.
 Qed.
 
 Lemma ccopy_spec c l : Ref c l -> Ref (ccopy hash c) l.
@@ -1146,21 +1268,10 @@ Proof.
   intros [H P]. unfold ccopy. rewrite citer_spec by auto.
   destruct (fresh_wf hash (chain_copy_arg (csize c))) as (W & T & L & C).
   destruct (refill_spec hash (celems c) _ W) as (W2 & P2 & _).
-  - apply (ci_nd _ _ H).
+  - apply (ci_nd _ H).
   - intros e _. rewrite T. simpl. auto.
   - rewrite C. pose proof (csize_spec c H) as Q. unfold chain_copy_arg in *. unfold elem in *. lia.
   - apply single_ref; auto. rewrite P2, T. simpl. auto.
-Qed.
-
-Lemma cfind_spec c l k : Ref c l -> cfind hash c k = rfind l k.
-Proof.
-  intros [H P]. unfold cfind. pose proof (find_tables_spec hash (tables c) k (ci_wf _ _ H)) as S.
-  fold (tables c). destruct (find_tables hash (tables c) k) as [x|].
-  - destruct S as [Hin <-]. symmetry. apply rfind_in.
-    + apply (Permutation_NoDup (Permutation_map fst P)). apply (ci_nd _ _ H).
-    + apply (Permutation_in _ P). auto.
-  - symmetry. apply rfind_none. intros Hin. apply S. unfold keys.
-    apply (Permutation_in _ (Permutation_map fst (Permutation_sym P))). auto.
 Qed.
 
 (* ---- one step of a client program ---- *)
@@ -1171,7 +1282,7 @@ Lemma step_ok s r o : Inv s r ->
 Proof.
   destruct s as [a b], r as [la lb]. intros [Ra Rb]. simpl in Ra, Rb.
   destruct o; cbn [step rstep].
-  - pose proof (cemplace_spec hash a (k, v) la Ra) as S. destruct (cemplace hash a (k, v)) as [[a' r] x].
+  - pose proof (cemplace_spec a (k, v) la Ra) as S. destruct (cemplace hash a (k, v)) as [[a' r] x].
     simpl fst in S. destruct (rfind la k) as [e0|].
     + destruct S as (-> & Hi & Hs & ->). simpl. unfold is_ins in Hi. unfold is_stuck in Hs.
       split; [split; auto|]. rewrite Hi, Hs. auto.
@@ -1199,32 +1310,15 @@ Proof.
   simpl in *. constructor; auto.
 Qed.
 
-Theorem hs_refines_set na nb ops : refines hash (Some na) (Some nb) ops.
+(* every initial capacity, including the default-constructed container (None) *)
+Theorem hs_refines_set a b ops : refines hash a b ops.
 Proof.
-  unfold refines. apply run_ok. split; simpl; apply fresh_ref.
+  unfold refines. apply run_ok. split; simpl; apply new_chain_ref.
 Qed.
 
 End Chain2.
 
-
-(* ================= the default-constructed container (placeholder head) ================= *)
 Definition hid (k : Z) : Z := k.
-
-(* size() over-reports by the 16 buckets of the placeholder as soon as a table is chained behind it *)
-Lemma hs_default_size_refuted : ~ refines hid None None [Emplace 1 0; Size].
-Proof.
-  unfold refines. vm_compute. intro H.
-  inversion H as [|? ? ? ? _ H1]; subst. inversion H1 as [|? ? ? ? H2 _]; subst. discriminate H2.
-Qed.
-
-(* iteration stops after the first chained table: 49 elements inserted, 32 visited *)
-Definition fill49 : list op := map (fun k => Emplace k 0) (zrange 49).
-Lemma hs_default_iter_refuted :
-  exists l, last (snd (run hid (init None None) (fill49 ++ [Iterate]))) OUnit = OIter (Some l) /\ length l = 32%nat.
-Proof. eexists. split; vm_compute; reflexivity. Qed.
-
-Lemma hs_default_refuted : exists ops, ~ refines hid None None ops.
-Proof. eexists. apply hs_default_size_refuted. Qed.
 
 (* ================= the reference itself never holds a key twice ================= *)
 Lemma rstep_nodup r o : NoDup (map fst (fst r)) /\ NoDup (map fst (snd r)) ->
@@ -1249,3 +1343,12 @@ Qed.
 Lemma hs_example_chain :
   length (rest (fst (fst (run hid (init (Some 16) (Some 16)) (map (fun k => Emplace k 0) (zrange 60)))))) = 2%nat.
 Proof. vm_compute. reflexivity. Qed.
+
+(* the default-constructed container: 49 emplaces chain two tables behind the placeholder head;
+   size() = 49 and iteration visits 49 elements *)
+Definition fill49 : list op := map (fun k => Emplace k 0) (zrange 49).
+Lemma hs_example_default :
+  let s := fst (run hid (init None None) fill49) in
+  dummy (head (fst s)) = true /\ length (rest (fst s)) = 2%nat /\ csize (fst s) = 49 /\
+  exists l, citer (fst s) = Some l /\ length l = 49%nat.
+Proof. vm_compute. repeat split. eexists. split; reflexivity. Qed.
